@@ -157,9 +157,49 @@ def r6_stop_recognizer(ctx, res):
                           "was not consumed" % (name, cond), g.entry.get("parser_file_rel"))
 
 
+def r1b_rn_only_for_glr(F, res):
+    """Right-nulled reductions pop fewer symbols than the production has. The GLR runtime and its builders know (nulled
+    children are filled in), the LR runtime pops `len` stack items and builds a node of a k-symbol production with fewer
+    children - not a derivation. The table offers them whenever the table type is LALR_RN; that type has to be tied to the
+    GLR algorithm where the lengths are computed (or the combination refused)."""
+    rid = res.rule("C02-R1b", "right-nulled reduction lengths are computed only when the parser algorithm is GLR (the LR runtime "
+                   "cannot take them)", floor=1)
+    try:
+        f = F.one(r"^rustemo_compiler::table::LRTable::<'g, 's>::new$")
+    except Exception:      # noqa
+        res.anchor_lost(rid, "LRTable::new not found")
+        return
+    n = algo = 0
+    for p in Sim(f, F, max_paths=100000).run():
+        for i, e in enumerate(p.events):
+            if e[0] == "call" and mir.strip_generics(e[1]).endswith("production_rn_lengths"):
+                n += 1
+                if any(mir.has_field(c[1], "parser_algo") for c in p.events[:i] if c[0] == "cond"):
+                    algo += 1
+    # a refusal of the combination anywhere in the compiler also does
+    refused = False
+    for path, h in F.fns.items():
+        if h.crate != "rustemo_compiler" or not h.has_body() or not ("settings" in path or "generate_parser" in path):
+            continue
+        for q in (Sim(h, F, max_paths=20000).run() if len(h.blocks) < 400 else []):
+            cs = [c for c in q.events if c[0] == "cond"]
+            if any(mir.has_field(c[1], "parser_algo") for c in cs) and any(mir.has_field(c[1], "table_type") for c in cs) and \
+                    any(e[0] == "return" and isinstance(e[1], tuple) and e[1][0] == "agg" and e[1][1].endswith("Err") for e in q.events):
+                refused = True
+    if not n:
+        res.anchor_lost(rid, "call of production_rn_lengths not found in LRTable::new", f.loc())
+    elif algo == n or refused:
+        res.ok(rid, "rn-only-for-glr", f.loc(), "tied to the GLR algorithm" if algo == n else "the combination LR + LALR_RN is refused")
+    else:
+        res.violation(rid, "rn-only-for-glr", "right-nulled lengths are computed for table type LALR_RN whatever the parser algorithm: "
+                      "`rcomp -t lalr-rn` with the LR parser offers Reduce(p, len < |rhs|) and the LR runtime builds `S: A BOpt` with "
+                      "one child (and the EMPTY alternative's reduction is silently dropped by `non-empty over empty`)", f.loc())
+
+
 def run(ctx, res):
     F = ctx.facts("core")
     r1_reduce_cells(F, res)
+    r1b_rn_only_for_glr(F, res)
     r2_cell_mutators(F, res)
     rid3 = res.rule("C02-R3", "the LR loop does what the table cell says: pop len -> goto(uncovered state, prod) -> push -> "
                     "reduce_action(prod, len) -> re-lex; shift pushes the action's state and hands the token that selected it "
